@@ -121,7 +121,7 @@ func genNoise(r *core.Rand, tier string) *Live {
 		if total < 2 {
 			total = 2
 		}
-		if total > 20000 {
+		if total > 80000 {
 			total = bs + 2
 		}
 		sx := genSysex(r, bs, total)
@@ -261,6 +261,10 @@ func genC14(r *core.Rand, tier string) *Live {
 	s.Chunks, s.Deltas = genChunks(r, len(s.Stream))
 	// an earlier listener with other options on the same port must not matter
 	if r.Chance(1, 4) {
+		// another driver instance of the same kind listening with other options is no concern of this one
+		s.Decoy = &LiveOpts{ActiveSense: r.Bool(), TimeCode: r.Bool(), SysEx: r.Bool()}
+	}
+	if r.Chance(1, 4) {
 		s.Pre = &LiveOpts{ActiveSense: r.Bool(), TimeCode: r.Bool(), SysEx: r.Bool(), BufSize: s.Opts.BufSize}
 		s.PreStopped = r.Chance(1, 2)
 	}
@@ -273,6 +277,7 @@ func (s *Live) runC14(env *core.Env, st *core.Stats) (vs []core.Violation) {
 	all.ActiveSense, all.TimeCode, all.SysEx = true, true, true
 	base := s.observe(env, all)
 	st.Eval(1)
+	st.ProbeIf(s.Decoy != nil, "second-driver-instance-listening-with-other-options")
 	if s.Pre != nil {
 		if s.PreStopped {
 			st.Probe("earlier-listener-with-other-options-(stopped)")
